@@ -42,7 +42,7 @@ Judge(ev) ==
     [] ev.a = "peek"  -> /\ ev.obs.guards = 1
                          /\ WriteOK(ev.obs.chg_hi, ev.obs.curr)
                          /\ ev.obs.ret \in {"more", "nobuf", "err"}
-    [] ev.a = "run"   -> /\ ev.obs.guards = 1 /\ ev.obs.wr_outside = 0
+    [] ev.a = "run"   -> /\ ev.obs.guards = 1 /\ ev.obs.wr_margin < 0      \* every call changed bytes below its final curr only
                          \* everything is fed unless an error or the answer budget ended the run
                          /\ ev.obs.fed <= Len(ev.arg.data)
                          /\ (ev.obs.last = "more" => ev.obs.fed = Len(ev.arg.data))
